@@ -154,12 +154,18 @@ func show(v interface{}) string {
 	case float64:
 		return "f" + fmt.Sprint(t)
 	case []interface{}:
+		if t == nil {
+			return "n"
+		}
 		xs := make([]string, len(t))
 		for i, x := range t {
 			xs[i] = show(x)
 		}
 		return "[" + strings.Join(xs, ",") + "]"
 	case []string:
+		if t == nil {
+			return "n"
+		}
 		xs := make([]string, len(t))
 		for i, x := range t {
 			xs[i] = show(x)
@@ -466,9 +472,14 @@ type RObs struct {
 
 var lineAnyRe = regexp.MustCompile(`(?m)^line (\d+):`)
 
-func runRender(c RCase) RObs {
+func runRender(c RCase) RObs { return runRenderExtra(c, nil) }
+
+func runRenderExtra(c RCase, extra map[string]interface{}) RObs {
 	lg := &runLog{}
 	data := map[string]interface{}{}
+	for k, v := range extra {
+		data[k] = v
+	}
 	for _, b := range c.Binds {
 		data[b.Name] = b.V.Go(lg)
 	}
